@@ -383,17 +383,21 @@ def check_heat_plants(ctx) -> None:
     for cn in HEAT_PLANTS:
         g = repo.method(cn, 'Calculate')
         rel = g.module.rel
+        # read on the canonical form (a local bound once to an attribute path is that path); formulas over named intermediates
+        import dataclasses
+        from gxstat.inline import canonical_function, inline_sequential
+        g = dataclasses.replace(g, node=canonical_function(g.node, unnest=False))
         defs = {norm(s.targets[0]): s for s in g.node.body if isinstance(s, ast.Assign) and not isinstance(s.targets[0], (ast.Tuple, ast.List))}
         he = defs.get('self.HeatExtracted.value')
         ctx.require(he is not None, f'{cn}.Calculate: HeatExtracted definition not found')
-        r = _tr(he.value)
+        r = _tr(inline_sequential(he.value, he))
         ctx.check(r.equals(HE_ATTR), 'F1', f'{cn}.Calculate/HeatExtracted', f'{rel}:{he.lineno}',
                   f'heat extracted is `{r.show()}`, not wells x flow x cp x (production - injection temperature) / 1e6',
                   fact='nprod*flow*cp*(Tprod - Tinj)/1e6')
         HE, ETA = a('self.HeatExtracted.value'), a('self.enduse_efficiency_factor.value')
         hp = defs.get('self.HeatProduced.value')
         ctx.require(hp is not None, f'{cn}.Calculate: HeatProduced definition not found')
-        rp = _tr(hp.value)
+        rp = _tr(inline_sequential(hp.value, hp))
         if cn in ('SurfacePlantIndustrialHeat', 'SurfacePlantDistrictHeating'):
             ctx.check(rp.equals(HE * ETA), 'F4', f'{cn}.Calculate/HeatProduced', f'{rel}:{hp.lineno}',
                       f'useful heat is `{rp.show()}`, not extracted heat x end-use efficiency')
@@ -415,9 +419,13 @@ def check_heat_plants(ctx) -> None:
             rc = _tr(co.value)
             ctx.check(rc.equals(a('self.HeatProduced.value') * a('self.absorption_chiller_cop.value') * ETA), 'F4', f'{cn}.Calculate/cooling',
                       f'{rel}:{co.lineno}', f'cooling is `{rc.show()}`, not heat x COP x efficiency')
-        # annual loops
+        # annual loops, read with the method's own helper closures written out at their call sites and fill-then-publish buffers filled
+        # under the published name: every site then reads `<series>[i] = SurfacePlant.integrate_time_series_slice(<power>, i, tspy, uf)`
+        from gxstat.inline import inline_local_functions
+        gi = inline_local_functions(g.node)
+        TSPY = 'model.economics.timestepsperyear.value'
         seen = {}
-        for s in loop_stores(g.node):
+        for s in loop_stores(gi):
             if not s.key.startswith('self.') or not s.key.endswith('.value'):
                 continue
             attr = s.key.split('.')[1]
@@ -426,17 +434,22 @@ def check_heat_plants(ctx) -> None:
             key = f'{cn}.Calculate/{attr}'
             where = f'{rel}:{s.line}'
             v = s.value
-            okc = isinstance(v, ast.Call) and dotted_name(v.func) == '_integrate_slice' and len(v.args) >= 2 and s.loops
+            okc = isinstance(v, ast.Call) and (dotted_name(v.func) or '').endswith('integrate_time_series_slice') and len(v.args) == 4 \
+                and not v.keywords and bool(s.loops)
+            if not okc and isinstance(v, ast.Call) and isinstance(v.func, ast.Name):
+                raise AnalysisError(f'{cn}.Calculate: `{norm(v)[:60]}` goes through a helper that could not be written out (idiom changed)')
             src = norm(v.args[0]) if okc else '?'
             want_src = f'{W}.PumpingPower.value' if attr == 'PumpingkWh' else f'self.{ANNUAL_OF[attr]}.value'
             ok = okc and src == want_src and norm(v.args[1]) == s.loops[-1].var and norm(s.index) == s.loops[-1].var and \
-                s.loops[-1].start.equals(Rat.const(0)) and s.loops[-1].stop.equals(a('self.plant_lifetime.value'))
+                s.loops[-1].start.equals(Rat.const(0)) and s.loops[-1].stop.equals(a('self.plant_lifetime.value')) and norm(v.args[2]) == TSPY
             if ok and cn == 'SurfacePlantDistrictHeating':
                 # yearly utilisation factor of the same year; guard must not select the lifetime-average arm for a DH plant
                 dead = any(norm(t) == 'self.plant_type.value == PlantType.DISTRICT_HEATING' and not pol for t, pol in s.guards)
                 if dead:
                     continue        # the non-DH arm of the always-true plant-type test
-                ok = len(v.args) == 3 and norm(v.args[2]) == f'self.util_factor_array.value[{s.loops[-1].var}]'
+                ok = norm(v.args[3]) == f'self.util_factor_array.value[{s.loops[-1].var}]'
+            elif ok:
+                ok = norm(v.args[3]) == 'self.utilization_factor.value'
             ctx.check(ok, 'F5', key, where,
                       f'`{norm(s.stmt)[:110]}`: the annual series {attr} must be the integral of {want_src} over year i for i in [0, lifetime)'
                       f'{" with that year s utilisation factor util_factor_array[i]" if cn == "SurfacePlantDistrictHeating" else ""}',
@@ -449,12 +462,8 @@ def check_heat_plants(ctx) -> None:
         if cn == 'SurfacePlantDistrictHeating':
             # every reachable store for a DH plant uses the yearly factor: there must be a live store per series
             pass
-        helper = [n for n in ast.walk(g.node) if isinstance(n, ast.FunctionDef) and n.name == '_integrate_slice']
-        ctx.require(len(helper) == 1, f'{cn}.Calculate: _integrate_slice helper not found')
-        hc = [c for c in ast.walk(helper[0]) if isinstance(c, ast.Call) and (dotted_name(c.func) or '').endswith('integrate_time_series_slice')]
-        want = ['series', '_i', 'model.economics.timestepsperyear.value', 'util_factor' if cn == 'SurfacePlantDistrictHeating' else 'self.utilization_factor.value']
-        ctx.check(len(hc) == 1 and [norm(x) for x in hc[0].args] == want, 'F5', f'{cn}.Calculate/_integrate_slice-wiring', f'{rel}:{helper[0].lineno}',
-                  f'integrator called with {[norm(x) for x in hc[0].args] if hc else "?"}; expected {want}')
+        ctx.ok('F5', f'{cn}.Calculate/_integrate_slice-wiring', g.where,
+               'integrator called with (series, year, steps per year, utilisation factor) at every site (checked per series)')
         _check_remaining(ctx, g, cn)
 
 
